@@ -20,17 +20,17 @@ def conversations():
     rj = pdu.AAssociateRjPDU(1, 1, 3).encode()
     convs['A1-echo-release'] = ('acceptor', {}, [('peer', [rq]), ('peer', echo), ('peer', [rlrq]), ('eof',)])
     convs['A2-store-multifragment'] = ('acceptor', {}, [('peer', [rq]), ('peer', store), ('peer', [rlrq]), ('eof',)])
-    convs['A3-peer-abort'] = ('acceptor', {}, [('peer', [rq]), ('peer', echo), ('peer', [abort]), ('eof',)])
+    convs['A3-peer-abort'] = ('acceptor', {'eof_burst_ok': True}, [('peer', [rq]), ('peer', echo), ('peer', [abort]), ('eof',)])
     convs['A4-local-reject'] = ('acceptor', {'reject': (1, 1, 1)}, [('peer', [rq]), ('eof',)])
     convs['A5-garbage-tail'] = ('acceptor', {}, [('peer', [rq]), ('peer', echo), ('peer', [garbage]), ('eof',)])
     convs['A6-pipelined-echo-release'] = ('acceptor', {}, [('peer', [rq]), ('peer', echo + [rlrq]), ('eof',)])
     # the peer aborts without waiting for the answer: the local user stays silent here, because its answer would
     # race with the abort (a user primitive consumed after the association ended is outside C03/C05)
-    convs['A7-rq-and-abort-at-once'] = ('acceptor', {'silent': True}, [('peer', [rq, abort]), ('eof',)])
+    convs['A7-rq-and-abort-at-once'] = ('acceptor', {'silent': True, 'eof_burst_ok': True}, [('peer', [rq, abort]), ('eof',)])
     convs['R1-echo-release'] = ('requester', {}, [('user', 'rq'), ('peer', [ac]), ('user', 'echo'),
                                                   ('peer', P.wire(P.echo_rsp(1), 1, 16384)), ('user', 'rlrq'),
                                                   ('peer', [rlrp]), ('eof',)])
-    convs['R2-rejected'] = ('requester', {}, [('user', 'rq'), ('peer', [rj]), ('eof',)])
+    convs['R2-rejected'] = ('requester', {'eof_burst_ok': True}, [('user', 'rq'), ('peer', [rj]), ('eof',)])
     convs['R3-incoming-store'] = ('requester', {}, [('user', 'rq'), ('peer', [ac]), ('peer', store),
                                                     ('user', 'rlrq'), ('peer', [rlrp]), ('eof',)])
     return convs
@@ -70,6 +70,8 @@ def run_conv(conv, plan):
             if policy == 'burst':
                 for s in segs:
                     r.feed(s)
+                if plan.get('eof_burst') and i + 1 < len(turns) and turns[i + 1][0] == 'eof':
+                    r.feed('EOF')
                 r.settle()
             else:
                 for s in segs:
@@ -123,6 +125,13 @@ def plans_for(conv, tier, rnd):
             if n > k:
                 cuts = rnd.sample(range(1, n), k)
                 plans.append(('k-cuts %r turn %d' % (sorted(cuts), i), {i: (scen.split(blob, cuts), rnd.choice(['burst', 'quiescent']))}))
+    # the peer's close arrives together with its last PDUs (only where no local reply is pending for them)
+    if opts.get('eof_burst_ok') and peer_turns:
+        i, blob, pdus = peer_turns[-1]
+        plans.append(('last turn and close in one burst', {i: ([blob], 'burst'), 'eof_burst': True}))
+        plans.append(('last turn PDU-wise and close in one burst', {i: (pdus, 'burst'), 'eof_burst': True}))
+        for c in range(1, len(blob), max(1, len(blob) // 12)):
+            plans.append(('cut %d last turn and close in one burst' % c, {i: (scen.split(blob, [c]), 'burst'), 'eof_burst': True}))
     # everything dribbled / everything coalesced
     plans.append(('dribble every turn', {i: ([blob[k:k + 1] for k in range(len(blob))], 'burst') for i, blob, _ in peer_turns}))
     plans.append(('coalesce every turn', {i: ([blob], 'burst') for i, blob, _ in peer_turns}))
@@ -130,7 +139,7 @@ def plans_for(conv, tier, rnd):
         out = []
         for name, p in plans:
             out.append((name, p))
-            if 0 in p or not p:
+            if (0 in p or not p) and not p.get('eof_burst'):
                 q = dict(p); q['prequeue'] = True
                 out.append((name + ' prequeued', q))
         out.append(('reference prequeued', {'prequeue': True}))
@@ -139,12 +148,12 @@ def plans_for(conv, tier, rnd):
 
 
 def enc_plan(plan):
-    return {str(k): ([s.hex() for s in v[0]], v[1]) if k != 'prequeue' else v for k, v in plan.items()}
+    return {str(k): ([s.hex() for s in v[0]], v[1]) if k not in ('prequeue', 'eof_burst') else v for k, v in plan.items()}
 
 
 def dec_plan(d):
-    return {(k if k == 'prequeue' else int(k)): (v if k == 'prequeue' else ([bytes.fromhex(x) for x in v[0]], v[1]))
-            for k, v in d.items()}
+    return {(k if k in ('prequeue', 'eof_burst') else int(k)):
+            (v if k in ('prequeue', 'eof_burst') else ([bytes.fromhex(x) for x in v[0]], v[1])) for k, v in d.items()}
 
 
 def replay(case):
